@@ -273,6 +273,8 @@ def run_case(sh, case, prop, api='func', driver='generated', nontrivial=None, to
         t_ = (case.get('threshold_kwargs') or {}).get('burst_fraction_threshold', 1)
         if bool(((df['burst_fraction'].to_numpy() >= t_) & ~df['is_burst'].to_numpy().astype(bool)).any()):
             sh.note('amp_tables_where_the_run_filter_cleared_cycles')
+    if isinstance(fek0, dict) and 'filter_kwargs' in fek0 and (fek0['filter_kwargs'] is None or None in fek0['filter_kwargs'].values()):
+        sh.note('filter_options_with_defaults_written_out_as_None' + ('' if df is not None else ':raised'))
     sh.note('family:' + str(case.get('family')))
     sh.note('cell:%s:%s:%s' % (case.get('center_extrema'), case.get('burst_method'), api))
     sh.case_done(case, nt, sample=sample_of(case))
